@@ -81,14 +81,15 @@ func (s *tbShim) Cleanup(func())      {}
 // debugNodeLogs (debugging aid, set by the network simulation under VERIF_NETDEBUG) receives every log entry of every node.
 var debugNodeLogs func(string)
 
-// logCore counts warn/error log entries by message (probes) and lets Fatal panic.
+// logCore counts warn/error log entries (and the consensus view-change / recovery entries of info level) by message
+// (probes) and lets Fatal panic.
 type logCore struct {
 	mu     sync.Mutex
 	counts map[string]int
 }
 
 func (c *logCore) Enabled(l zapcore.Level) bool {
-	return l >= zapcore.WarnLevel || debugNodeLogs != nil
+	return l >= zapcore.InfoLevel || debugNodeLogs != nil
 }
 func (c *logCore) With([]zapcore.Field) zapcore.Core { return c }
 func (c *logCore) Check(e zapcore.Entry, ce *zapcore.CheckedEntry) *zapcore.CheckedEntry {
@@ -105,10 +106,10 @@ func (c *logCore) Write(e zapcore.Entry, fs []zapcore.Field) error {
 		}
 		debugNodeLogs(fmt.Sprintf("%s %s %v", e.Level, e.Message, enc.Fields))
 	}
-	if e.Level < zapcore.WarnLevel {
+	if e.Level < zapcore.InfoLevel {
 		return nil
 	}
-	if e.Level == zapcore.InfoLevel && !strings.Contains(e.Message, "view") && !strings.Contains(e.Message, "recover") {
+	if lm := strings.ToLower(e.Message); e.Level == zapcore.InfoLevel && !strings.Contains(lm, "view") && !strings.Contains(lm, "recover") {
 		return nil // only the consensus view-change / recovery messages are interesting at info level
 	}
 	c.mu.Lock()
